@@ -1,7 +1,21 @@
 (* Prop_C31.v — the property theorems of C31 and nothing else. *)
 From Coq Require Import List NArith ZArith Bool.
 Import ListNotations.
-From Verif Require Import Base.Val C31.Model_C31 C31.Spec_C31 C31.Proofs_C31.
+From Verif Require Import Base.Val C31.Model_C31 C31.Spec_C31 C31.Proofs_C31 C31.Roundtrip_C31.
+
+(* For ANY environment mapping (distinct keys that are shell names; values text without NUL or
+   lists of such text; the non-exported marker a string), any Unicode classification of the
+   non-ASCII code points and any set of readonly names: generation succeeds, the generated text
+   is inside the modelled bash fragment, and after evaluating it every shell variable is exactly
+   what the statement demands (value, array-ness, exported unless marked; readonly names and the
+   marker itself are not transferred). *)
+Theorem env_roundtrip : forall U ro e,
+  env_ok e ->
+  exists text log,
+    generate_env_str U ro e = inr text /\ bash_eval text = Some log /\
+    forall k, final_lookup k log = expected_lookup ro e k.
+Proof. exact env_roundtrip_proof. Qed.
+Print Assumptions env_roundtrip.
 
 (* inline transfer: the reader consumes exactly the bytes written for the payload; what the
    Python side writes next (rest) is what the daemon reads next *)
@@ -15,7 +29,38 @@ Theorem framing_file_in_sync : forall path rest,
 Proof. exact framing_file_in_sync_proof. Qed.
 Print Assumptions framing_file_in_sync.
 
-(* the character count sent before the repair does not have this property *)
+(* the two together, for each way of sending *)
+Theorem send_env_inline_exact : forall U ro e rest,
+  env_ok e ->
+  exists text log,
+    generate_env_str U ro e = inr text /\
+    reader (frame text ++ rest) = Some (encode text, rest) /\
+    bash_eval text = Some log /\
+    forall k, final_lookup k log = expected_lookup ro e k.
+Proof. exact send_env_inline_exact_proof. Qed.
+Print Assumptions send_env_inline_exact.
+
+Theorem send_env_file_exact : forall U ro e path rest,
+  env_ok e -> ascii_line path ->
+  exists text log,
+    generate_env_str U ro e = inr text /\
+    reader_file (frame_file path ++ rest) = Some (path, rest) /\
+    bash_eval text = Some log /\
+    forall k, final_lookup k log = expected_lookup ro e k.
+Proof. exact send_env_file_exact_proof. Qed.
+Print Assumptions send_env_file_exact.
+
+(* what was wrong before the repair (fixes/C31-env-quoting.patch) *)
+Theorem old_scalar_refuted : ~ roundtrip_statement generate_env_str_old.
+Proof. exact old_scalar_refuted_proof. Qed.
+Print Assumptions old_scalar_refuted.
+
+Theorem old_list_refuted :
+  exists U ro e, env_ok e /\
+    exists text, generate_env_str_old U ro e = inr text /\ bash_eval text = None.
+Proof. exact old_list_refuted_proof. Qed.
+Print Assumptions old_list_refuted.
+
 Theorem framing_charcount_refuted :
   exists data rest, reader (frame_old data ++ rest) <> Some (encode data, rest).
 Proof. exact framing_charcount_refuted_proof. Qed.
